@@ -777,3 +777,12 @@ silent('C07', 'prs-put-validates-by-membership-and-owner',
 fire('C07', 'prs-put-removes-before-owner-check (seed C07-a)', 'C07.R3', 'ReservablePriorityReqStore.put',
      lambda p: M.replace_node(p, S_PRS, 'ReservablePriorityReqStore._do_put', M.assign_to('reserved_event'),
                               'self.reservations_put.remove(put_event) if put_event in self.reservations_put else None\nreserved_event = put_event if put_event.requesting_process == self.env.active_process else None'))
+
+# ============================================================================================ all properties
+def _reformat_all(p):
+    """every module re-printed by ast.unparse: comments dropped, line numbers and layout changed, semantics identical"""
+    return {rel: ast.unparse(m.tree) + '\n' for rel, m in p.modules.items()}
+
+
+for _prop in ('C01', 'C02', 'C03', 'C04', 'C05', 'C06', 'C07', 'C08', 'C09', 'C10', 'C11', 'C12', 'C13', 'C14', 'C15', 'C16', 'C17', 'C18', 'C19', 'C20'):
+    silent(_prop, 'whole-package-reformat (ast round trip: no comments, new line numbers)', _reformat_all)
